@@ -311,7 +311,7 @@ class Congruence:
             return self.eqadd(aa, ab, wa)
         if opa == 'and1':
             return self.pair_terms([(t, 1) for t in aa], [(t, 1) for t in ab])
-        if opa == 'eqz':
+        if opa == 'eqz' or opa == 'def':
             return self.eqv(aa, ab)
         if opa in ('ult', 'udiv', 'urem', 'ite'):
             return all(self.eqv(x, y) for x, y in zip(aa, ab))
